@@ -699,9 +699,9 @@ pub fn c15_scn(name: &str, full: bool) -> ChatScn {
     let mut s = ChatScn::new(name, oper_cfg(), vec![part(0, "uma", "ursula", "uu"), part(1, "alice", "alicia", "au"), part(2, "carol", "caro", "cu")], 1);
     // alice founds #y; uma will be a plain member there
     s.prelude = vec![(1, "JOIN #y".into())];
-    let mut u: Vec<&'static str> = vec!["JOIN #x", "JOIN #y", "MODE {me} +w", "MODE {me} +i", "AWAY :t", "OPER op oppw", "NICK {alt}", "NICK {peer}", "NICK #bad", "NICK a.b"];
+    let mut u: Vec<&'static str> = vec!["JOIN #x", "JOIN #y", "MODE {me} +w", "MODE {me} +i", "AWAY :t", "OPER op oppw", "NICK {alt}", "NICK {peer}", "NICK #bad", "NICK a.b", "NICK .ab"];
     if full {
-        u.extend(["NICK a,b", "NICK {me}", "NICK fresh", "PART #x", "JOIN #z"]);
+        u.extend(["NICK a,b", "NICK ,ab", "NICK ::ab", "NICK &ab", "NICK {me}", "NICK fresh", "PART #x", "JOIN #z"]);
     }
     for t in u {
         s.alphabet_for.push((0, t));
